@@ -8,9 +8,8 @@
 
    Families:
      generic   g_*      : dynamically checked (as_int / as_float), errors as values
-     typed     t_*      : II / FF / IImm forms reading operands with as_int_unchecked /
-                          as_float_unchecked -- NO tag check (release behaviour);
-                          `t_*_asserts` says when the debug_assert! in the accessor passes
+     typed     t_*      : II / FF / IImm forms: tag check, typed fast path, generic fallback
+                          (t_*_old: the unchecked reads before fix 7e82908)
      guarded   gd_*     : ...G forms (check tags, promote, fall back to generic code)
      loop      forloop_i / while_loop_lt
    `vm_binop`/`vm_unop`/`vm_immop` dispatch on the opcode (Extracted/Opcodes.v). *)
@@ -246,28 +245,44 @@ Definition g_not (a : N) : vres :=
                || match as_bool a with Some false => true | _ => false end
                || match as_int a with Some 0%Z => true | _ => false end)).
 
-(* ------------------------------------------------------------------ typed family (unchecked) *)
-Definition t_arith_ii (o : aop) (a b : N) : vres :=
-  int_arith o (as_int_unchecked a) (as_int_unchecked b).
-Definition t_arith_ff (o : aop) (a b : N) : vres :=
-  ROk (float_arith o (as_float_unchecked a) (as_float_unchecked b)).
-Definition t_cmp_ii (o : cop) (a b : N) : vres :=
-  ROk (v_bool (int_cmp o (as_int_unchecked a) (as_int_unchecked b))).
-Definition t_cmp_ff (o : cop) (a b : N) : vres :=
-  ROk (v_bool (float_cmp o (as_float_unchecked a) (as_float_unchecked b))).
-Definition t_bit_ii (o : bop) (a b : N) : vres :=
-  ROk (v_int (int_bit o (as_int_unchecked a) (as_int_unchecked b))).
-Definition t_not_i (a : N) : vres := ROk (v_int (Z.lnot (as_int_unchecked a))).
-(* immediate forms: c is the 8-bit C field, zero-extended (c as i64) *)
-Definition t_arith_imm (o : aop) (a c : N) : vres := int_arith o (as_int_unchecked a) (Z.of_N c).
-Definition t_cmp_imm (o : cop) (a c : N) : vres :=
-  ROk (v_bool (int_cmp o (as_int_unchecked a) (Z.of_N c))).
+(* ------------------------------------------------------------------ typed family
+   Since fix 7e82908 every specialised opcode checks the operand tags: the typed fast path when
+   they are the expected ones, the generic operation otherwise.  AddII..ModII, LtII..NeII,
+   ShlII..XorII and NotI share the match arm of the generic opcode (Extracted/DispatchArms.v
+   records which opcodes share an arm): they ARE the generic operation. *)
+Definition t_arith_ii (hv : heapview) (o : aop) (a b : N) : vres := g_arith hv o a b.
+Definition t_cmp_ii (hv : heapview) (o : cop) (a b : N) : vres := g_cmp hv o a b.
+Definition t_bit_ii (o : bop) (a b : N) : vres := g_bit o a b.
+Definition t_not_i (a : N) : vres := g_bitnot a.
+(* AddFF..ModFF, LtFF..NeFF: float fast path first, then the generic operation *)
+Definition t_arith_ff (hv : heapview) (o : aop) (a b : N) : vres :=
+  match as_f a, as_f b with
+  | Some x, Some y => ROk (float_arith o x y)
+  | _, _ => g_arith hv o a b
+  end.
+Definition t_cmp_ff (hv : heapview) (o : cop) (a b : N) : vres :=
+  match as_f a, as_f b with
+  | Some x, Some y => ROk (v_bool (float_cmp o x y))
+  | _, _ => g_cmp hv o a b
+  end.
+(* immediate forms: c is the 8-bit C field, zero-extended (c as i64); a non-int register gets
+   the generic operation with Value::int(c) (AddI SubI Lt..GeImm Lt..GeIImm) or the generic
+   type error (Shl..XorIImm) *)
+Definition t_arith_imm (hv : heapview) (o : aop) (a c : N) : vres :=
+  match as_int a with
+  | Some l => int_arith o l (Z.of_N c)
+  | None => g_arith hv o a (v_int (Z.of_N c))
+  end.
+Definition t_cmp_imm (hv : heapview) (o : cop) (a c : N) : vres :=
+  match as_int a with
+  | Some l => ROk (v_bool (int_cmp o l (Z.of_N c)))
+  | None => g_cmp hv o a (v_int (Z.of_N c))
+  end.
 Definition t_bit_imm (o : bop) (a c : N) : vres :=
-  ROk (v_int (int_bit o (as_int_unchecked a) (Z.of_N c))).
-
-(* the debug_assert! inside the unchecked accessors passes *)
-Definition ii_asserts (a b : N) : bool := is_int a && is_int b.
-Definition ff_asserts (a b : N) : bool := is_float a && is_float b.
+  match as_int a with
+  | Some l => ROk (v_int (int_bit o l (Z.of_N c)))
+  | None => RErr ETypeError
+  end.
 
 (* ------------------------------------------------------------------ guarded family *)
 Definition gd_arith_iig (hv : heapview) (o : aop) (a b : N) : vres :=
@@ -278,11 +293,6 @@ Definition gd_arith_iig (hv : heapview) (o : aop) (a b : N) : vres :=
     | Some x, Some y => ROk (float_arith o x y)
     | _, _ => g_arith hv o a b
     end
-  end.
-Definition gd_arith_ffg (hv : heapview) (o : aop) (a b : N) : vres :=
-  match promote a, promote b with
-  | Some x, Some y => ROk (float_arith o x y)
-  | _, _ => g_arith hv o a b
   end.
 (* non-numeric operands: the guarded comparisons fall back to the generic comparison
    (compare_lt.. => TypeError for Lt..Ge; Value == / string contents for Eq, Ne) *)
@@ -295,16 +305,40 @@ Definition gd_cmp_iig (hv : heapview) (o : cop) (a b : N) : vres :=
     | _, _ => g_cmp hv o a b
     end
   end.
-Definition gd_cmp_ffg (hv : heapview) (o : cop) (a b : N) : vres :=
-  match promote a, promote b with
-  | Some x, Some y => ROk (v_bool (float_cmp o x y))
-  | _, _ => g_cmp hv o a b
-  end.
+(* since 7e82908 AddFFG..NeFFG share the arms of AddIIG..NeIIG *)
+Definition gd_arith_ffg := gd_arith_iig.
+Definition gd_cmp_ffg := gd_cmp_iig.
 
 (* ------------------------------------------------------------------ loop super-instructions *)
-(* ForLoopI (40) / ForLoopIInc (41) on registers (iter, end, step): new iter word and whether
-   the back-jump is taken.  The comparison uses the un-wrapped i64 sum. *)
-Definition forloop_i (inclusive : bool) (iter lim step : N) : N * bool :=
+(* ForLoopI (40) / ForLoopIInc (41) on registers (iter, end, step): None = type error (some
+   register is not an int); otherwise the new iter word and whether the back-jump is taken.
+   The comparison uses the un-wrapped i64 sum. *)
+Definition forloop_i (inclusive : bool) (iter lim step : N) : option (N * bool) :=
+  match as_int iter, as_int lim, as_int step with
+  | Some i, Some e, Some s =>
+      let n := (i + s)%Z in
+      Some (v_int n,
+            if (0 <? s)%Z then (if inclusive then (n <=? e)%Z else (n <? e)%Z)
+            else (if inclusive then (e <=? n)%Z else (e <? n)%Z))
+  | _, _, _ => None
+  end.
+(* WhileLoopLt (48): None = type error from compare_lt *)
+Definition while_loop_lt (iter lim : N) : option bool :=
+  match as_int iter, as_int lim with
+  | Some i, Some l => Some (i <? l)%Z
+  | _, _ => g_ord CLt iter lim
+  end.
+
+(* ------------------------------------------------------------------ the definitions before 7e82908
+   (operands read with as_int_unchecked / as_float_unchecked, no tag check; release behaviour).
+   Kept only so that the old counterexamples remain statements about something. *)
+Definition t_arith_ii_old (o : aop) (a b : N) : vres :=
+  int_arith o (as_int_unchecked a) (as_int_unchecked b).
+Definition t_arith_ff_old (o : aop) (a b : N) : vres :=
+  ROk (float_arith o (as_float_unchecked a) (as_float_unchecked b)).
+Definition t_cmp_imm_old (o : cop) (a c : N) : vres :=
+  ROk (v_bool (int_cmp o (as_int_unchecked a) (Z.of_N c))).
+Definition forloop_i_old (inclusive : bool) (iter lim step : N) : N * bool :=
   let i := as_int_unchecked iter in
   let e := as_int_unchecked lim in
   let s := as_int_unchecked step in
@@ -312,10 +346,13 @@ Definition forloop_i (inclusive : bool) (iter lim step : N) : N * bool :=
   (v_int n,
    if (0 <? s)%Z then (if inclusive then (n <=? e)%Z else (n <? e)%Z)
    else (if inclusive then (e <=? n)%Z else (e <? n)%Z)).
-(* WhileLoopLt (48) *)
-Definition while_loop_lt (iter lim : N) : bool :=
+Definition while_loop_lt_old (iter lim : N) : bool :=
   (as_int_unchecked iter <? as_int_unchecked lim)%Z.
-Definition loop3_asserts (a b c : N) : bool := is_int a && is_int b && is_int c.
+Definition gd_arith_ffg_old (hv : heapview) (o : aop) (a b : N) : vres :=
+  match promote a, promote b with
+  | Some x, Some y => ROk (float_arith o x y)
+  | _, _ => g_arith hv o a b
+  end.
 
 (* ------------------------------------------------------------------ dispatch by opcode *)
 Inductive fam := FGen | FII | FFF | FIIG | FFFG.
@@ -354,25 +391,17 @@ Definition binop_sem (op : opcode) : option binsem :=
 Definition run_binsem (hv : heapview) (s : binsem) (a b : N) : vres :=
   match s with
   | SArith FGen o => g_arith hv o a b
-  | SArith FII o => t_arith_ii o a b
-  | SArith FFF o => t_arith_ff o a b
+  | SArith FII o => t_arith_ii hv o a b
+  | SArith FFF o => t_arith_ff hv o a b
   | SArith FIIG o => gd_arith_iig hv o a b
   | SArith FFFG o => gd_arith_ffg hv o a b
   | SCmp FGen o => g_cmp hv o a b
-  | SCmp FII o => t_cmp_ii o a b
-  | SCmp FFF o => t_cmp_ff o a b
+  | SCmp FII o => t_cmp_ii hv o a b
+  | SCmp FFF o => t_cmp_ff hv o a b
   | SCmp FIIG o => gd_cmp_iig hv o a b
   | SCmp FFFG o => gd_cmp_ffg hv o a b
   | SBit FII o => t_bit_ii o a b
   | SBit _ o => g_bit o a b          (* there are no FF / guarded bitwise opcodes *)
-  end.
-
-(* does the debug_assert! of the accessors used by this opcode pass on these operands *)
-Definition binsem_asserts (s : binsem) (a b : N) : bool :=
-  match s with
-  | SArith FII _ | SCmp FII _ | SBit FII _ => ii_asserts a b
-  | SArith FFF _ | SCmp FFF _ => ff_asserts a b
-  | _ => true
   end.
 
 Definition vm_binop (hv : heapview) (op : opcode) (a b : N) : option vres :=
@@ -385,15 +414,13 @@ Definition vm_unop (op : opcode) (a : N) : option vres :=
   | O_NotI => Some (t_not_i a)
   | _ => None
   end.
-Definition unop_asserts (op : opcode) (a : N) : bool :=
-  match op with O_NotI => is_int a | _ => true end.
 
 (* register-immediate opcodes: dest := op(R[b], c) with c the raw 8-bit field *)
-Definition vm_immop (op : opcode) (a c : N) : option vres :=
+Definition vm_immop (hv : heapview) (op : opcode) (a c : N) : option vres :=
   match op with
-  | O_AddI => Some (t_arith_imm AAdd a c) | O_SubI => Some (t_arith_imm ASub a c)
-  | O_LtImm | O_LtIImm => Some (t_cmp_imm CLt a c) | O_LeImm | O_LeIImm => Some (t_cmp_imm CLe a c)
-  | O_GtImm | O_GtIImm => Some (t_cmp_imm CGt a c) | O_GeImm | O_GeIImm => Some (t_cmp_imm CGe a c)
+  | O_AddI => Some (t_arith_imm hv AAdd a c) | O_SubI => Some (t_arith_imm hv ASub a c)
+  | O_LtImm | O_LtIImm => Some (t_cmp_imm hv CLt a c) | O_LeImm | O_LeIImm => Some (t_cmp_imm hv CLe a c)
+  | O_GtImm | O_GtIImm => Some (t_cmp_imm hv CGt a c) | O_GeImm | O_GeIImm => Some (t_cmp_imm hv CGe a c)
   | O_ShlIImm => Some (t_bit_imm BShl a c) | O_ShrIImm => Some (t_bit_imm BShr a c)
   | O_AndIImm => Some (t_bit_imm BAnd a c) | O_OrIImm => Some (t_bit_imm BOr a c)
   | O_XorIImm => Some (t_bit_imm BXor a c)
